@@ -788,6 +788,33 @@ func (x *EvalCtx) callExpr(n *ECall) Val {
 		}
 		v, _ := unflatten(rt, terms)
 		return v
+	case "joinHostPort":
+		a, b := x.eval(n.Args[0]), x.eval(n.Args[1])
+		x.s.c.declare("joinHostPort", "(declare-fun joinHostPort (Str Str) Str)")
+		return Val{T: strT, S: app("joinHostPort", a.S, b.S)}
+	case "urlHostname", "urlPort":
+		a := x.eval(n.Args[0])
+		fn := "urlHostname"
+		if n.Fn == "urlPort" {
+			fn = "urlPort"
+		}
+		x.s.c.declare(fn, fmt.Sprintf("(declare-fun %s (Str) Str)", fn))
+		return Val{T: strT, S: app(fn, a.S)}
+	case "urlRequestURI":
+		a := x.eval(n.Args[0])
+		x.s.c.declare("urlRequestURI", "(declare-fun urlRequestURI (Int) Str)")
+		return Val{T: strT, S: app("urlRequestURI", a.S)}
+	case "urlResolve":
+		a, b := x.eval(n.Args[0]), x.eval(n.Args[1])
+		x.s.c.declare("urlResolve", "(declare-fun urlResolve (Int Int) Int)")
+		return Val{T: a.T, S: app("urlResolve", a.S, b.S)}
+	case "textOfBytes":
+		a := x.eval(n.Args[0])
+		if a.Sl == nil {
+			return x.fail("textOfBytes: not a slice")
+		}
+		x.s.c.declare("textOfBytes", "(declare-fun textOfBytes (Int Int Int) Str)")
+		return Val{T: strT, S: app("textOfBytes", a.Sl.Base, a.Sl.Off, a.Sl.Len)}
 	case "instantOf":
 		a, b := x.eval(n.Args[0]), x.eval(n.Args[1])
 		x.s.c.declare("instantOf", "(declare-fun instantOf (Int Int) Int)")
